@@ -47,6 +47,9 @@ def configs(tier, seed):
     for grid in dsm.GRIDS:
         for n in ns:
             out.append(dict(h="impulse", op="idsm", key=f"impulse/idsm/grid={grid}/n={n}", kind="idsm", grid=grid, n=n, extra={"r": 2}))
+            if grid == "uneven" and n == 4:
+                # the same after another model was run on a different grid with the same end points and length
+                out.append(dict(h="impulse", op="idsm2", key=f"impulse/idsm/grid={grid}/n={n}/after_other_grid", kind="idsm", grid=grid, n=n, extra={"r": 2}, after_other_grid=True))
             for lt, prm in REAL:
                 for ia, npts in ([("middle", 1), ("start", 1)] if tier == "quick" else [("start", 1), ("middle", 1), ("end", 1), ("middle", 4)]):
                     out.append(dict(h="shift_real", op=lt, key=f"shift_real/{lt}/grid={grid}/n={n}/{ia}{npts}", kind="idsm", grid=grid, n=n, extra={"r": 2},
@@ -122,6 +125,13 @@ def run(cfg, w):
     n, kind, extra = cfg["n"], cfg["kind"], cfg["extra"]
     h = cfg["h"]
     y, dt, b = dsm.make_grid(w, n, cfg["grid"])
+    if cfg.get("after_other_grid"):
+        d0 = dsm.make_dims(y, extra)
+        _run("idsm", d0, dsm.sf_table(w, n, d0.shape[1:], name="sf0", constrain=("range",)), w.arr("d0", d0.shape))
+        y = [y[0]] + [w.real(f"z{i}", default=float(2000 + dsm._UNEVEN[i]) + 0.5) for i in range(1, n - 1)] + [y[-1]]
+        for i in range(n - 1):
+            w.assume(w.gt(y[i + 1] - y[i], 0))
+        dt, b = dsm.oracle_bounds(y)
     dims = dsm.make_dims(y, extra)
     shape = dims.shape
     labs = dsm.labels(shape[1:])
